@@ -267,6 +267,11 @@ func (s *CAStore) addToMemoryCache(
 	}
 
 	data := tmpWriter.Bytes()
+	if uint64(len(data)) != size {
+		// The reservation was made for size bytes. Caching an entry of a different
+		// length would make the accounted bytes drift from the bytes actually held.
+		return fmt.Errorf("blob length %d does not match reserved size %d", len(data), size)
+	}
 	metaInfo, err := s.generateMetadataFromBytes(name, data, pieceLength)
 	if err != nil {
 		return fmt.Errorf("generating metainfo: %w", err)
